@@ -99,11 +99,8 @@ pub fn resolve_non_predicate_params(item_impl: &mut syn::ItemImpl) {
 
     for param in &mut item_impl.generics.params {
         match param {
-            syn::GenericParam::Lifetime(syn::LifetimeParam { lifetime, .. }) => {
-                if let Some(new_lifetime) = lifetimes.get(&lifetime.ident) {
-                    lifetime.ident = new_lifetime.clone();
-                }
-            }
+            // NOTE: Declared lifetimes are `syn::Lifetime` nodes and get renamed by the resolver below
+            syn::GenericParam::Lifetime(_) => {}
             syn::GenericParam::Type(syn::TypeParam { ident, .. }) => {
                 if let Some(new_ident) = type_params.get(ident) {
                     *ident = new_ident.clone();
